@@ -37,9 +37,19 @@ IMPORTS = {
 }
 
 
+_PKG = {}
+
+
 def run_func(repo, qual, env, file=FILE, extra_imports=None):
+    """Evaluate one repository function; names it does not get from `env` resolve in the module's own
+    environment (other module-level functions and constants, evaluated from source)."""
+    from ..pkgenv import Package
+
     fi = repo.func(file, qual)
-    e = dict(env)
+    if id(repo) not in _PKG:
+        _PKG[id(repo)] = Package(repo)
+    e = dict(_PKG[id(repo)].env(file))
+    e.update(env)
     imp = dict(IMPORTS)
     if extra_imports:
         imp.update(extra_imports)
